@@ -387,6 +387,12 @@ class Executor:
             h = self.hooks.get(('len', v.pycls.__name__)) or self.hooks.get(('len', v.name))
             if h:
                 return h(self, v).t != 0
+            import inspect as _insp
+            for dunder in ('__bool__', '__len__'):
+                f = _insp.getattr_static(v.pycls, dunder, None)
+                if f is not None and hasattr(f, '__code__') and f.__code__.co_filename.startswith('/repo/'):
+                    r = self.inline_real(f, [v], {})       # the class's own truth value, from its source
+                    return self.truthy(r) if dunder == '__bool__' else (as_int_term(r) != 0)
             if not hasattr(v.pycls, '__bool__') and not hasattr(v.pycls, '__len__'):
                 return z3.BoolVal(True)
         if isinstance(v, (VExc, VFunc, VBound)):
@@ -1866,7 +1872,10 @@ class Executor:
             # bound of the ghost index
             # (no implicit bound on the ghost index: the list may be mutated; contracts state it)
             return self.run_loop(node, env, spec2, cond, prefix)
-        items = self.iter_concrete(it)
+        if isinstance(it, VIter) and isinstance(it.seq, (VPyList, VTuple)):
+            items = list(it.seq.items)
+        else:
+            items = self.iter_concrete(it)
         if len(items) > (spec.unroll if spec and spec.unroll else self.max_unroll):
             raise OutOfSubset(f'for loop at line {node.lineno}: {len(items)} iterations')
         for item in items:
@@ -1950,6 +1959,7 @@ class DecimalLocalContext:
 
 class VIter(Val):
     """iter(seq): an iterator with a position (mutable)."""
+    pycls = type(iter([]))
 
     def __init__(self, seq, pos=0):
         self.seq = seq
